@@ -75,7 +75,7 @@ def _generated(root):
                 return
             seen.append(x)
             for name, a in x.__xpmtype__.arguments.items():
-                if a.generator is not None:
+                if a.generator is not None and hasattr(a.generator, "isoutput") and a.generator.isoutput():
                     out.append((x, name, x.__xpm__.values.get(name)))
             for v in x.__xpm__.values.values():
                 walk(v)
@@ -135,7 +135,8 @@ def paths(
             ok = False
     if t1.__xpm__.job.path != t2.__xpm__.job.path:
         ok = False
-    rt.note("generated", [str(v.relative_to(jobpath)) for v in vals1])
+    if rt.concrete():
+        rt.note("generated", [str(v) for v in vals1], "job", jobpath)
     return fin(ok)
 
 
